@@ -156,7 +156,9 @@ func (ga *GroupAggregator) isNumericAggregator(aggType AggregateType) bool {
 // shouldAllowNullValues 判断聚合函数是否应该允许NULL值
 func (ga *GroupAggregator) shouldAllowNullValues(aggType AggregateType) bool {
 	// FIRST_VALUE和LAST_VALUE函数应该允许NULL值，因为它们需要记录第一个/最后一个值，即使是NULL
-	return aggType == FirstValue || aggType == LastValue
+	// 函数名大小写不敏感（FIRST_VALUE 与 first_value 等价），AggregateType 保留查询原文
+	t := AggregateType(strings.ToLower(string(aggType)))
+	return t == FirstValue || t == LastValue
 }
 
 func (ga *GroupAggregator) Add(data any) error {
